@@ -230,6 +230,12 @@ func applyBuildLimits(b *build) {
 		knobEnabled = false
 		fmt.Println(b.knobNote)
 	}
+	// the tree's library code uses sync / sync/atomic: a share of the runs
+	// preempts at the edges of critical sections (site class "sync")
+	syncLib = b.instr.SyncLib > 0
+	if syncLib {
+		fmt.Printf("%d library files use sync or sync/atomic: scheduler class \"sync\" enabled\n", b.instr.SyncLib)
+	}
 }
 
 func envOr(k, d string) string {
@@ -377,6 +383,13 @@ func sampleOf(r runOut) map[string]interface{} {
 		}
 		m["program"] = fmt.Sprintf("php-parser %s %s with %d parser workers (the real cmd/php-parser main, goroutines, channels and WaitGroup under the simulated scheduler)", strings.Join(s.CLIFlags, " "), strings.Join(s.CLIPaths, " "), s.Workers)
 		m["files"] = fs
+		if len(s.FSFaults) > 0 {
+			var ff []string
+			for _, f := range s.FSFaults {
+				ff = append(ff, f.Kind+" on "+f.Path)
+			}
+			m["io_faults"] = ff
+		}
 		delete(m, "inputs")
 	}
 	if len(s.History) > 0 {
